@@ -1,5 +1,6 @@
 import CuriesVerif.Codec
 import CuriesVerif.Model.Loaders
+import CuriesVerif.Model.Reconcile
 
 /-!
 # Operation histories over converter slots
@@ -18,7 +19,10 @@ inductive Step where
   | chain (dst : Nat) (srcs : List Nat) (cs : Bool)
   | sub (dst src : Nat) (prefixes : List Str)
   | query (c : Nat) (q : Query)
-  | fresh (dst src : Nat)                                       -- Converter(src.records, delimiter=src.delimiter)
+  | remapCurie (dst src : Nat) (rm : List (Str × Str))
+  | remapUri (dst src : Nat) (rm : List (Str × Str))
+  | rewire (dst src : Nat) (rm : List (Str × Str))
+  | fresh (dst src : Nat) (extra : List Record)                 -- Converter(copies of src.records + extra, delimiter=src.delimiter)
   | dups (recs : List Record)                                   -- the listing of a strict construction
   | loadPm (dst : Nat) (pm : List (Str × Str)) (delim : Str) (strict : Bool)
   | loadPriority (dst : Nat) (data : List (Str × List Str))
@@ -39,6 +43,14 @@ def mkFold (tbl : List (Str × Str)) (s : Str) : Str :=
   match tbl.find? (·.1 == s) with
   | some (_, f) => f
   | none => s
+
+def derive (s : Slots) (dst src : Nat) (f : Conv → Except Err Conv) : Slots × Val :=
+  match s.get? src with
+  | none => (s, .bad "no such slot")
+  | some c =>
+    match f c with
+    | .ok c' => (s.put dst c', .none)
+    | .error e => (s, .err e)
 
 def initInto (s : Slots) (dst : Nat) (recs : Except Err (List Record)) (delim : Str) (strict : Bool) :
     Slots × Val :=
@@ -92,11 +104,17 @@ def Step.exec (fold : Str → Str) (s : Slots) : Step → Slots × Val
     match s.get? ci with
     | none => (s, .bad "no such slot")
     | some c => (s, c.run q)
-  | .fresh dst src =>
+  | .remapCurie dst src rm => derive s dst src (Reconcile.remapCuriePrefixes · rm)
+  | .remapUri dst src rm => derive s dst src (Reconcile.remapUriPrefixes · rm)
+  | .rewire dst src rm => derive s dst src (Reconcile.rewire · rm)
+  | .fresh dst src extra =>
     match s.get? src with
     | none => (s, .bad "no such slot")
     | some c =>
-      match Conv.init? c.records c.delim true with
+      match extra.mapM Record.validate with
+      | .error e => (s, .err e)
+      | .ok extra =>
+      match Conv.init? (c.records ++ extra) c.delim true with
       | .ok c' => (s.put dst c', .none)
       | .error e => (s, .err e)
   | .dups recs =>
@@ -142,7 +160,10 @@ def step (j : Json) : D Step := do
     pure (.chain (← nat "dst") srcs (boolD j "cs" true))
   | "sub" => pure (.sub (← nat "dst") (← nat "src") (← strs (← j.getObjVal? "prefixes")))
   | "q" => pure (.query (← nat "c") (← query j))
-  | "fresh" => pure (.fresh (← nat "dst") (← nat "src"))
+  | "remap_curie" => pure (.remapCurie (← nat "dst") (← nat "src") (← pairs (← j.getObjVal? "mapping")))
+  | "remap_uri" => pure (.remapUri (← nat "dst") (← nat "src") (← pairs (← j.getObjVal? "mapping")))
+  | "rewire" => pure (.rewire (← nat "dst") (← nat "src") (← pairs (← j.getObjVal? "mapping")))
+  | "fresh" => pure (.fresh (← nat "dst") (← nat "src") (← records (fieldD j "extra" (.arr #[]))))
   | "dups" => pure (.dups (← records (← j.getObjVal? "records")))
   | "load_pm" =>
     pure (.loadPm (← nat "dst") (← pairs (← j.getObjVal? "data")) (← str (fieldD j "delim" (.arr #[58])))
